@@ -75,6 +75,21 @@ def make_profile(rng, net, profile_kind, n_steps):
     if "circ_pump_pressure" in net and len(net.circ_pump_pressure) and rng.random() < 0.5:
         labs = [int(net.circ_pump_pressure.index[0])]
         add("circ_pump_pressure", "plift_bar", labs, [net.circ_pump_pressure.at[labs[0], "plift_bar"]], 1.0, 0.8, 1.2)
+    # boolean flags: supply points, valves, pipes switched by the profile (which parts are supplied changes)
+    def add_flags(table, column, labels, p_true):
+        names = []
+        for lab in labels:
+            nm = "%s_%s_%s" % (table, column, lab)
+            cols[nm] = [bool(rng.random() < p_true) for _ in range(n_steps)]
+            names.append(nm)
+        cells.append((table, column, [int(x) for x in labels], 1.0, names))
+    if len(net.ext_grid) and rng.random() < (0.75 if len(net.ext_grid) > 1 else 0.3):
+        add_flags("ext_grid", "in_service", list(net.ext_grid.index), 0.65)
+    for t, c, pr in (("valve", "opened", 0.35), ("pipe", "in_service", 0.35), ("circ_pump_pressure", "in_service", 0.15)):
+        if t in net and len(net[t]) and rng.random() < pr:
+            labs = list(net[t].index)
+            rng.shuffle(labs)
+            add_flags(t, c, labs[:rng.randint(1, min(2, len(labs)))], 0.7)
     if not cells:
         return None
     # infeasible rows: NaN pressure / lift, or (gas) a demand far beyond what the supply pressure can deliver
@@ -95,9 +110,9 @@ def make_profile(rng, net, profile_kind, n_steps):
 def attach(net, cells, df, steps, log_vars):
     from pandapower.timeseries import DFData, OutputWriter
     from pandapower.control import ConstControl
-    ds = DFData(df)
     for table, column, labels, scale, names in cells:
-        ConstControl(net, element=table, variable=column, element_index=labels, data_source=ds,
+        # one homogeneous frame per controller (a mixed bool / float frame would hand object rows to ConstControl)
+        ConstControl(net, element=table, variable=column, element_index=labels, data_source=DFData(df[names].copy()),
                      profile_name=names, scale_factor=scale)
     ow = OutputWriter(net, steps, output_path=None, log_variables=list(log_vars))
     return ow
@@ -109,7 +124,10 @@ def standalone(net0, cells, df, t, kw, log_vars):
     import numpy as np
     net = copy.deepcopy(net0)
     for table, column, labels, scale, names in cells:
-        vals = df.loc[t, names].values * scale          # the very expression ConstControl evaluates
+        if df[names[0]].dtype == bool:
+            vals = df[names].loc[t].values.astype(bool)
+        else:
+            vals = df[names].loc[t].values * scale               # profile[t] * scale_factor as ConstControl
         net[table].loc[labels, column] = vals
     try:
         pp.pipeflow(net, **kw)
@@ -178,6 +196,139 @@ def one_series(ctx, p, spec, net0, cells, df, steps, cod, kw, log_vars):
     return n
 
 
+# ------------------------------------------------------------------------------------------ multi-energy series
+def build_power(rng):
+    import pandapower as ppw
+    net = ppw.create_empty_network()
+    b = [ppw.create_bus(net, vn_kv=20.) for _ in range(4)]
+    ppw.create_ext_grid(net, b[0])
+    for x, y, l in ((0, 1, 4.), (1, 2, 3.), (1, 3, 2.)):
+        ppw.create_line(net, b[x], b[y], l, "NA2XS2Y 1x240 RM/25 12/20 kV")
+    ppw.create_load(net, b[1], p_mw=rng.choice([2., 4.]))
+    ppw.create_load(net, b[3], p_mw=1.0, name="power to gas consumption")
+    ppw.create_sgen(net, b[2], p_mw=0.5, name="gas to power feed in", scaling=rng.choice([1.0, 0.5]))
+    return net
+
+
+def multinet_series(ctx, n_nets, n_steps):
+    """power-led gas-to-power + power-to-gas coupling in a pandapipes.multinet time series: every logged row of the
+    gas net bit-identical (power net: rtol 1e-8, pandapower warm start) to stand-alone calculations on fresh nets
+    carrying the row's values and the gas flows that follow from them (the controllers' own formulas)"""
+    import numpy as np
+    import pandas as pd
+    import pandapower as ppw
+    import pandapipes as pp
+    from harness import gen, c12_hist as H
+    from pandapower.timeseries import DFData, OutputWriter
+    from pandapower.control import ConstControl
+    from pandapipes.multinet.control.controller.multinet_control import coupled_g2p_const_control, \
+        coupled_p2g_const_control
+    from pandapipes.multinet.create_multinet import create_empty_multinet, add_nets_to_multinet
+    from pandapipes.multinet.timeseries.run_time_series_multinet import run_timeseries as run_ts_mn
+    rows = series = tried = 0
+    gas_log = [("res_junction", "p_bar"), ("res_sink", "mdot_kg_per_s"), ("res_source", "mdot_kg_per_s"),
+               ("res_ext_grid", "mdot_kg_per_s")]
+    while series < n_nets and tried < 4 * n_nets:
+        tried += 1
+        spec = gen.gen_net(ctx.rng, "gas", features={"fluid": ctx.rng.choice(["hgas", "lgas"])})
+        gas0 = gen.build(spec)
+        if len(gas0.sink) < 1 or not len(gas0.pipe):
+            continue
+        pp.set_user_pf_options(gas0, use_numba=False)
+        src_j = int(ctx.rng.choice(list(gas0.junction.index[gas0.junction.in_service])))
+        p2g_src = int(pp.create_source(gas0, src_j, 0.0, name="power to gas feed in"))
+        if H.do_run(copy.deepcopy(gas0), {})[0] != "ok":
+            continue
+        power0 = build_power(ctx.rng)
+        hhv = pp.get_fluid(gas0).get_property("hhv")
+        eff_g2p, eff_p2g = ctx.rng.choice([0.4, 0.5, 0.6]), ctx.rng.choice([0.6, 0.7])
+        sinks = [int(i) for i in gas0.sink.index]
+        g2p_sink = ctx.rng.choice(sinks)
+        base_m = float(gas0.sink.at[g2p_sink, "mdot_kg_per_s"]) or 0.01
+        k2m = hhv * 3600 / 1e3
+        prof = pd.DataFrame({
+            "g2p_p_mw": [base_m * k2m * eff_g2p * ctx.rng.choice([0.25, 0.5, 1.0, 1.5, 2.0]) for _ in range(n_steps)],
+            "p2g_p_mw": [base_m * k2m * ctx.rng.choice([0.0, 0.3, 0.6, 1.0]) for _ in range(n_steps)],
+            "load_p_mw": [ctx.rng.choice([1.0, 2.0, 3.5]) for _ in range(n_steps)]})
+        other = [i for i in sinks if i != g2p_sink]
+        if other:
+            prof["sink_m"] = [float(gas0.sink.at[other[0], "mdot_kg_per_s"]) * ctx.rng.choice([0.5, 1.0, 1.5])
+                              for _ in range(n_steps)]
+        steps = list(range(n_steps))
+        ctx.rng.shuffle(steps)
+        steps = steps[:max(3, n_steps - ctx.rng.randint(0, 3))]
+        gas, power = copy.deepcopy(gas0), copy.deepcopy(power0)
+        mn = create_empty_multinet("c13")
+        add_nets_to_multinet(mn, power=power, gas=gas)
+        ds = DFData(prof)
+        coupled_g2p_const_control(mn, 0, g2p_sink, g2p_efficiency=eff_g2p, power_led=True, profile_name="g2p_p_mw",
+                                  data_source=ds)
+        coupled_p2g_const_control(mn, 1, p2g_src, p2g_efficiency=eff_p2g, profile_name="p2g_p_mw", data_source=ds)
+        ConstControl(power, "load", "p_mw", 0, profile_name="load_p_mw", data_source=ds)
+        if other:
+            ConstControl(gas, "sink", "mdot_kg_per_s", other[0], profile_name="sink_m", data_source=ds)
+        ow_g = OutputWriter(gas, steps, output_path=None, log_variables=list(gas_log))
+        ow_p = OutputWriter(power, steps, output_path=None, log_variables=[("res_bus", "vm_pu"), ("res_sgen", "p_mw")])
+        replay = {"gas_spec": spec, "p2g_source_junction": src_j, "g2p_sink": g2p_sink, "eff": [eff_g2p, eff_p2g],
+                  "profile": json.loads(prof.to_json()), "steps": steps}
+        # stand-alone calculations first: fresh nets carrying the row and the gas flows that follow from it
+        refs, feasible = {}, True
+        for t in steps:
+            g, pw = copy.deepcopy(gas0), copy.deepcopy(power0)
+            pw.sgen.at[0, "p_mw"] = prof.at[t, "g2p_p_mw"] * 1.0
+            pw.load.at[1, "p_mw"] = prof.at[t, "p2g_p_mw"] * 1.0
+            pw.load.at[0, "p_mw"] = prof.at[t, "load_p_mw"] * 1.0
+            if other:
+                g.sink.at[other[0], "mdot_kg_per_s"] = prof.at[t, "sink_m"] * 1.0
+            # G2PControlMultiEnergy (power led) / P2GControlMultiEnergy control_step
+            g.sink.at[g2p_sink, "mdot_kg_per_s"] = (pw.sgen.at[0, "p_mw"] * pw.sgen.at[0, "scaling"]) / \
+                ((hhv * 3600 / 1e3) * eff_g2p)
+            g.source.at[p2g_src, "mdot_kg_per_s"] = (pw.load.at[1, "p_mw"] * pw.load.at[1, "scaling"]) * \
+                (1e3 / (hhv * 3600)) * eff_p2g
+            if H.do_run(g, {})[0] != "ok":
+                feasible = False
+                break
+            ppw.runpp(pw)
+            refs[t] = (g, pw)
+        if not feasible:
+            ctx.count("multinet_profile_infeasible")
+            continue
+        try:
+            run_ts_mn(mn, steps, verbose=False)
+        except Exception as e:  # noqa: BLE001
+            ctx.violation({"kind": "multinet-ts-outcome"}, "multinet run_timeseries raised %s: %s although every step "
+                          "converges stand-alone" % (type(e).__name__, str(e)[:100]), replay)
+            series += 1
+            continue
+        series += 1
+        ok = True
+        for t in steps:
+            g, pw = refs[t]
+            pos = ow_g.time_step_lookup[t]
+            for tb, c in gas_log:
+                var = "%s.%s" % (tb, c)
+                got, exp = hexrow(ow_g.np_results[var][pos]), hexrow(g[tb][c].values)
+                rows += 1
+                if got != exp and ok:
+                    ok = False
+                    bad = next(i for i, (x, y) in enumerate(zip(got, exp)) if x != y)
+                    ctx.violation({"kind": "multinet-ts-step-differs", "where": var},
+                                  "multinet time series, step %d (position %d of %r): logged %s[%d] = %r, stand-alone "
+                                  "calculation of the coupled nets with that row = %r"
+                                  % (t, steps.index(t), steps, var, bad, float(ow_g.np_results[var][pos][bad]),
+                                     float(g[tb][c].values[bad])), replay)
+            vm = ow_p.np_results["res_bus.vm_pu"][ow_p.time_step_lookup[t]]
+            rows += 1
+            if not np.allclose(vm, pw.res_bus.vm_pu.values, rtol=1e-8, atol=1e-10) and ok:
+                ok = False
+                ctx.violation({"kind": "multinet-ts-step-differs", "where": "res_bus.vm_pu"},
+                              "multinet time series, step %d: logged bus voltages %r, stand-alone %r"
+                              % (t, vm.tolist(), pw.res_bus.vm_pu.values.tolist()), replay)
+        ctx.case({"kind": "multinet", "gas": gen.describe(spec), "steps": steps, "eff": [eff_g2p, eff_p2g]}, True)
+        ctx.count("multinet_series")
+    return rows, series
+
+
 def run(ctx):
     from harness import gen
     ctx.extra["rule"] = ("a case = (net, profile table, step list, continue_on_divergence); non-trivial iff the step "
@@ -237,9 +388,17 @@ def run(ctx):
             ctx.count("profile_" + p)
             ctx.count("cod_%s" % cod)
             ctx.count("series_with_infeasible_row", 1 if bad_rows & set(steps) else 0)
+    n_v = len(ctx.violations)
     ctx.corr("every row logged by run_timeseries == stand-alone pipeflow on a fresh copy (bit-identical); "
-             "divergence flag / raised error as the stand-alone calculations predict", rows,
-             len([v for v in ctx.violations]), "series %d" % cases)
+             "divergence flag / raised error as the stand-alone calculations predict", rows, n_v, "series %d" % cases)
+    try:
+        mrows, mseries = multinet_series(ctx, 3 if ctx.quick else 25, 6 if ctx.quick else 12)
+        ctx.corr("multi-energy time series (power-led G2P + P2G): every logged gas row == stand-alone coupled "
+                 "calculation (bit-identical), bus voltages rtol 1e-8", mrows, len(ctx.violations) - n_v,
+                 "series %d" % mseries)
+    except Exception:  # noqa: BLE001
+        import traceback
+        ctx.broken("harness", "multinet time series", traceback.format_exc()[-900:])
     if not proved and not ctx.violations:
         ctx.note("obligation broken; the differential found no concrete input")
 
